@@ -98,7 +98,7 @@ PROPS = {
  },
  'C16': {
   'level_text': 'Coq theorems (closed under the global context) about the chunk parsers of the stream-machine model: for ALL legal field values the parser applied to the '
-                'specification\'s big-endian layout stores exactly those values (gAMA, pHYs, cHRM, sRGB, acTL, cLLI, fcTL with all nine fields, text keyword splitting); later '
+                'specification\'s big-endian layout stores exactly those values (gAMA, pHYs, cHRM, sRGB, acTL, cLLI, cICP, mDCV with its reordering and doubling, fcTL with all nine fields, text keyword splitting); later '
                 'instances of first-wins kinds change nothing; duplicates of gAMA/cHRM/sRGB/pHYs/tRNS are parser errors that (benign list regenerated from the source) never '
                 'leave parse_chunk; unknown chunk types touch only the control state; no parser touches the byte counter/control state. Tied and searched on every run by a '
                 'reference writer with expectations computed from the values.',
